@@ -650,7 +650,11 @@ func builtinAppend(i *Interpreter, args []Expr, env *Environment) (interface{}, 
 	if err != nil {
 		return nil, err
 	}
-	return append(arr, item), nil
+	// A new array: appending onto arr itself would write into its spare
+	// capacity, which every other array built from arr shares.
+	result := make([]interface{}, len(arr), len(arr)+1)
+	copy(result, arr)
+	return append(result, item), nil
 }
 
 func builtinSet(i *Interpreter, args []Expr, env *Environment) (interface{}, error) {
